@@ -323,7 +323,11 @@ def bdf_restart_rule(rep, f):
     dir_ids0 = {l["pat"]["id"] for l in tast.find(body["body"], lambda z: z.get("k") == "Let" and z["pat"].get("k") == "PBind" and z.get("init") is not None
                                                    and z["init"].get("k") == "MethodCall" and z["init"].get("name") == "signum")}
     delegated = []
+    import bdfx
+    semantic = bdfx.r_bdf_restart(rep, f, arms)
     for j, a in enumerate(arms):
+        if j in semantic:
+            continue      # decided by exact evaluation of the arm
         b = a["body"]
         key = "R-MODIFIED-REEVAL:%s:history-restart:%s" % (fn, "initial" if j == 0 else "per-step")
         probs = []
